@@ -172,7 +172,8 @@ Theorem partition_correct (b : list T) v : valid_view b v ->
     voff r = voff v /\
     window b' r = filter keep (window b v) /\
     can_overwrite v r = false /\
-    (0 < vlen v -> vcap r = vlen r) /\
+    (0 < vlen v -> clipped r) /\
+    (vlen v = 0 -> r = v) /\
     Permutation (window b' v) (window b v) /\
     firstn (Z.to_nat (voff v)) b' = firstn (Z.to_nat (voff v)) b /\
     skipn (Z.to_nat (voff v + vlen v)) b' = skipn (Z.to_nat (voff v + vlen v)) b.
@@ -189,6 +190,7 @@ Proof.
     assert (w = []) by (destruct w; [reflexivity | rewrite zlen_cons in E0; pose proof (zlen_nonneg w); lia]).
     split; [unfold window at 1; replace (vlen v) with 0 by lia; rewrite H; reflexivity|].
     split; [unfold can_overwrite; rewrite Z.ltb_irrefl; apply andb_false_r|]. split; [lia|].
+    split; [reflexivity|].
     split; [rewrite S1; exact Pm|]. split; assumption.
   - set (h := zlen (filter keep w)).
     assert (Hh : 0 <= h <= vlen v) by (unfold h, zlen in *; lia).
@@ -201,7 +203,7 @@ Proof.
       - unfold window. rewrite firstn_firstn. f_equal. lia.
       - rewrite S1. f_equal. unfold h, zlen. lia. }
     split; [unfold can_overwrite; cbn [vlen vcap]; rewrite Z.ltb_irrefl; reflexivity|].
-    split; [reflexivity|]. split; [rewrite S1; exact Pm|]. split; assumption.
+    split; [reflexivity|]. split; [lia|]. split; [rewrite S1; exact Pm|]. split; assumption.
 Qed.
 
 End Part.
